@@ -12,7 +12,8 @@
 //     of "comments and whitespace are removed where x is on, `#` and whitespace are literal where it is off".
 //
 // input   : "f=<imsUxa subset|-> src=<hex> ast=<tree|ERR|HANG> subj=<hex,..> orc=<r:orbit:names;..>"
-// observed: "text=<hex|ERR>;go=<ok|err>;m=<bits|->;xref=<hex|ERR|->[;xcause=<class>]"
+// observed: "text=<hex|ERR>;go=<ok|err>;m=<bits|->;xref=<hex|ERR|->[;xcause=<class>][;gd=<bits>;gc=<foldmix|other>]"
+//           (gd/gc: only when Go's regexp gives other verdicts once alternation factoring is blocked - see guardText)
 // corpus / replay lines: "f=<flags> src=<hex> [subj=<hex,..>]" (everything else is re-derived).
 package main
 
@@ -21,6 +22,7 @@ import (
 	"fmt"
 	"hash/fnv"
 	"regexp"
+	"regexp/syntax"
 	"sort"
 	"strconv"
 	"strings"
@@ -784,20 +786,45 @@ func xScan(src string, x0 bool, strip bool, edit func(c rune, x bool) rune, live
 	var stack []bool
 	x := x0
 	i := 0
+	// TOKENS ARE NOT FUSED.  The one token of the regex lexer whose length depends on what follows it is the simple octal
+	// escape `\` DIGIT+ (lexer.octalEscape reads every following digit).  Under x, `\0 5` / `\0#..\n5` are the escape \0
+	// followed by the character 5 (whitespace and comments separate tokens, they are not deleted from inside one); deleting
+	// the stretch would write `\05`, another token.  So when something has been removed directly after an octal escape and
+	// the next copied rune is a digit, the neutral separator `(?#)` is written between them (an empty comment group: the
+	// lexer drops it in every mode and it leaves no node, so the emitted text is not affected).
+	afterOctal, gap := false, false
+	put := func(rs ...rune) {
+		if len(rs) == 0 {
+			return
+		}
+		if strip && afterOctal && gap && rs[0] >= '0' && rs[0] <= '9' {
+			out = append(out, []rune("(?#)")...)
+		}
+		afterOctal, gap = false, false
+		out = append(out, rs...)
+	}
 	for i < n {
 		c := rs[i]
 		switch {
+		case c == '\\' && i+1 < n && rs[i+1] >= '0' && rs[i+1] <= '9':
+			j := i + 2
+			for j < n && rs[j] >= '0' && rs[j] <= '9' {
+				j++
+			}
+			put(rs[i:j]...)
+			afterOctal = true
+			i = j
 		case c == '\\' && i+1 < n && rs[i+1] == 'Q':
 			j := i + 2
 			for j < n && rs[j] != '\\' {
 				j++
 			}
 			j = min(j+2, n)
-			out = append(out, rs[i:j]...)
+			put(rs[i:j]...)
 			i = j
 		case c == '\\':
 			j := min(i+2, n)
-			out = append(out, rs[i:j]...)
+			put(rs[i:j]...)
 			i = j
 		case c == '[':
 			j := i + 1
@@ -816,7 +843,7 @@ func xScan(src string, x0 bool, strip bool, edit func(c rune, x bool) rune, live
 				}
 			}
 			j = min(j+1, n)
-			out = append(out, rs[i:j]...)
+			put(rs[i:j]...)
 			i = j
 		case x && c == '#':
 			if live != nil {
@@ -828,16 +855,18 @@ func xScan(src string, x0 bool, strip bool, edit func(c rune, x bool) rune, live
 			}
 			j = min(j+1, n)
 			if !strip {
-				out = append(out, rs[i:j]...)
+				put(rs[i:j]...)
 			}
+			gap = true
 			i = j
 		case x && unicode.IsSpace(c):
 			if live != nil {
 				live[i] = true
 			}
 			if !strip {
-				out = append(out, c)
+				put(c)
 			}
+			gap = true
 			i++
 		case c == '(' && i+1 < n && rs[i+1] == '?':
 			j := i + 2
@@ -846,7 +875,7 @@ func xScan(src string, x0 bool, strip bool, edit func(c rune, x bool) rune, live
 					j++
 				}
 				j = min(j+1, n)
-				out = append(out, rs[i:j]...)
+				put(rs[i:j]...)
 				i = j
 				continue
 			}
@@ -890,7 +919,7 @@ func xScan(src string, x0 bool, strip bool, edit func(c rune, x bool) rune, live
 			case j < n && rs[j] == ')': // bare flag group: the rest of the enclosing group
 				x = nx
 				if strip && (set || unset) {
-					out = append(out, erased(j, ')')...)
+					put(erased(j, ')')...)
 					i = j + 1
 					continue
 				}
@@ -899,7 +928,7 @@ func xScan(src string, x0 bool, strip bool, edit func(c rune, x bool) rune, live
 				stack = append(stack, x)
 				x = nx
 				if strip && (set || unset) {
-					out = append(out, erased(j, ':')...)
+					put(erased(j, ':')...)
 					i = j + 1
 					continue
 				}
@@ -925,24 +954,24 @@ func xScan(src string, x0 bool, strip bool, edit func(c rune, x bool) rune, live
 			default:
 				return "", false
 			}
-			out = append(out, rs[i:j]...)
+			put(rs[i:j]...)
 			i = j
 		case c == '(':
 			stack = append(stack, x)
-			out = append(out, c)
+			put(c)
 			i++
 		case c == ')':
 			if len(stack) > 0 {
 				x = stack[len(stack)-1]
 				stack = stack[:len(stack)-1]
 			}
-			out = append(out, c)
+			put(c)
 			i++
 		default:
 			if edit != nil {
 				c = edit(c, x)
 			}
-			out = append(out, c)
+			put(c)
 			i++
 		}
 	}
@@ -977,7 +1006,7 @@ func defuseOutsideX(src string, x0 bool, hash bool) string {
 }
 
 // neutralise copies src and defuses one suspected cause of an extended-mode disagreement:
-//   set    INSIDE `#` comments, every rune of set becomes 'c'
+//   set    INSIDE `#` comments, every rune of set becomes 'c' (an escape `\.` as a whole, "cc", and only when set has `\`)
 //   hashq  a quantifier character directly after a comment's `#` becomes 'c'
 //   nlq    a quantifier character directly after the newline that ends a comment becomes 'c'
 //   wsq    a quantifier character directly after unescaped whitespace becomes 'c'
@@ -1035,6 +1064,29 @@ func neutralise(src string, x0 bool, d defuse) string {
 				switch {
 				case d.hashq && j == i+1 && strings.ContainsRune(quant, rs[j]):
 					out = append(out, 'c')
+				case rs[j] == '\\' && j+1 < n && rs[j+1] != '\n':
+					// an escape inside the comment is ONE token for the lexer (`\|` is no pipe, `\*` no quantifier): it is defused as
+					// a whole, and only as the cause "backslash"; its second character is never replaced on its own (`\*` -> `\c`
+					// would make a new token, a caret escape that takes the next character)
+					// `\x{..}` `\u{..}` `\U{..}` `\o{..}` `\p{..}` `\P{..}`: the braces and what is between them belong to the escape
+					e := j + 1
+					if strings.ContainsRune("xuUopP", rs[j+1]) && j+2 < n && rs[j+2] == '{' {
+						k := j + 3
+						for k < n && rs[k] != '}' && rs[k] != '\n' {
+							k++
+						}
+						if k < n && rs[k] == '}' {
+							e = k
+						}
+					}
+					for k := j; k <= e; k++ {
+						if strings.ContainsRune(d.set, '\\') {
+							out = append(out, 'c')
+						} else {
+							out = append(out, rs[k])
+						}
+					}
+					j = e
 				case strings.ContainsRune(d.set, rs[j]):
 					out = append(out, 'c')
 				default:
@@ -1101,6 +1153,7 @@ func xCause(src string, f bitfield.BitField8) string {
 	}{
 		{"hashq", defuse{hashq: true}}, {"lonehash", defuse{lone: true}}, {"nlq", defuse{nlq: true}}, {"pipe", defuse{set: "|"}}, {"paren", defuse{set: "()"}},
 		{"bracket", defuse{set: "[]"}}, {"quantifier", defuse{set: "*+?{}"}}, {"backslash", defuse{set: "\\"}}, {"wsq", defuse{wsq: true}},
+		{"anchor", defuse{set: "^$"}},
 	}
 	// inline x groups: a literal `#` / whitespace where x is OFF read as a comment / dropped (or the reverse);
 	// tried first so that this class never hides behind one of the comment-text classes below
@@ -1117,11 +1170,56 @@ func xCause(src string, f bitfield.BitField8) string {
 			return c.name
 		}
 	}
-	if agrees(neutralise(src, x0, defuse{set: "|()[]*+?{}\\^$", hashq: true, nlq: true, wsq: true, lone: true})) {
-		for _, c := range single {
-			if neutralise(src, x0, c.d) != src {
-				return "multi-" + c.name
+	// several causes at once.  Candidates are the defusings that touch the text; every SET of them is tried, smallest sets
+	// first, and among sets of one size the one made of the most specific classes first (rank below: `#*..` is hashq, not "a
+	// quantifier somewhere in the comment").  The first set whose joint defusing restores agreement is the answer,
+	// "multi-a+b": a smallest set of causes, each of them needed.  The check reports the case under EACH of their class keys,
+	// so a pattern that combines known classes maps to the known keys and a new class in the mix still raises its own key.
+	// (An exhaustive search, not a greedy one: defusing rewrites text - `\p{L}` -> `cc{L}` - and can itself break a pattern,
+	// so whether a cause can be dropped depends on which others are defused.)
+	rank := map[string]uint{"hashq": 0, "lonehash": 1, "nlq": 2, "wsq": 3, "pipe": 4, "paren": 5, "bracket": 6, "backslash": 7, "anchor": 8, "quantifier": 9}
+	var cand []int
+	for k, c := range single {
+		if neutralise(src, x0, c.d) != src {
+			cand = append(cand, k)
+		}
+	}
+	type subset struct {
+		mask, size int
+		weight     uint
+	}
+	var subsets []subset
+	for mask := 1; mask < 1<<len(cand); mask++ {
+		ss := subset{mask: mask}
+		for b, k := range cand {
+			if mask&(1<<b) != 0 {
+				ss.size++
+				ss.weight += 1 << rank[single[k].name]
 			}
+		}
+		if ss.size >= 2 {
+			subsets = append(subsets, ss)
+		}
+	}
+	sort.Slice(subsets, func(i, j int) bool {
+		if subsets[i].size != subsets[j].size {
+			return subsets[i].size < subsets[j].size
+		}
+		return subsets[i].weight < subsets[j].weight
+	})
+	for _, ss := range subsets {
+		var d defuse
+		var names []string
+		for b, k := range cand {
+			if ss.mask&(1<<b) != 0 {
+				c := single[k]
+				names = append(names, c.name)
+				d.set += c.d.set
+				d.hashq, d.nlq, d.wsq, d.lone = d.hashq || c.d.hashq, d.nlq || c.d.nlq, d.wsq || c.d.wsq, d.lone || c.d.lone
+			}
+		}
+		if agrees(neutralise(src, x0, d)) {
+			return "multi-" + strings.Join(names, "+")
 		}
 	}
 	return "other"
@@ -1157,6 +1255,231 @@ func lexerHangs() bool {
 		}
 	})
 	return hangProbe.hangs
+}
+
+// ---------------------------------------------------------------- third oracle: Go's regexp against itself
+//
+// Go's regexp/syntax parser rewrites every alternation while parsing (parser.factor: common leading literals / leading
+// character classes of adjacent alternatives are factored out, single characters are merged into classes).  The rewrite
+// is meant to be invisible; it is not: its equality test on the leading piece (Regexp.Equal) ignores the FoldCase flag of
+// a one-rune literal, so `Z.|(?i)z` becomes `Z(?:.|(?:))` - the case-insensitive alternative is read case-sensitively
+// (Go 1.25: regexp.MustCompile(`Z(?i).|z`).MatchString("z") == false).  Go's regexp is the trusted reference of this
+// check, so the deviation is detected WITHOUT the model: guardText writes the empty group `(?:)` at the start of the
+// text, after every `|` and after every group head.  `(?:)` matches the empty string and nothing else, so the guarded
+// text denotes the same language; an alternative that starts with it has neither a leading literal nor a leading class,
+// so nothing is factored.  When the compiled guarded text and the compiled emitted text disagree on a subject, Go's
+// regexp disagrees with itself; the verdicts of the guarded text are printed (gd=) with the class of the cause (gc=).
+
+func guardText(text string) string {
+	const g = "(?:)"
+	rs := []rune(text)
+	n := len(rs)
+	out := make([]rune, 0, n+16)
+	out = append(out, []rune(g)...)
+	i := 0
+	for i < n {
+		c := rs[i]
+		switch {
+		case c == '\\' && i+1 < n && rs[i+1] == 'Q':
+			j := i + 2
+			for j < n && !(rs[j] == '\\' && j+1 < n && rs[j+1] == 'E') {
+				j++
+			}
+			j = min(j+2, n)
+			out = append(out, rs[i:j]...)
+			i = j
+		case c == '\\':
+			j := min(i+2, n)
+			out = append(out, rs[i:j]...)
+			i = j
+		case c == '[':
+			j := i + 1
+			if j < n && rs[j] == '^' {
+				j++
+			}
+			if j < n && rs[j] == ']' { // a `]` in first place is a member
+				j++
+			}
+			for j < n && rs[j] != ']' {
+				switch {
+				case rs[j] == '\\':
+					j += 2
+				case rs[j] == '[' && j+1 < n && rs[j+1] == ':':
+					k := j + 2
+					for k < n && !(rs[k] == ':' && k+1 < n && rs[k+1] == ']') {
+						k++
+					}
+					if k < n {
+						j = k + 2
+					} else {
+						j++
+					}
+				default:
+					j++
+				}
+			}
+			j = min(j+1, n)
+			out = append(out, rs[i:j]...)
+			i = j
+		case c == '|':
+			out = append(out, c)
+			out = append(out, []rune(g)...)
+			i++
+		case c == '(' && i+1 < n && rs[i+1] == '?':
+			j := i + 2
+			switch {
+			case j < n && (rs[j] == '<' || (rs[j] == 'P' && j+1 < n && rs[j+1] == '<')):
+				for j < n && rs[j] != '>' {
+					j++
+				}
+				j = min(j+1, n)
+				out = append(out, rs[i:j]...)
+				out = append(out, []rune(g)...)
+			default:
+				for j < n && rs[j] != ')' && rs[j] != ':' {
+					j++
+				}
+				scoped := j < n && rs[j] == ':'
+				j = min(j+1, n)
+				out = append(out, rs[i:j]...)
+				if scoped {
+					out = append(out, []rune(g)...)
+				}
+			}
+			i = j
+		case c == '(':
+			out = append(out, c)
+			out = append(out, []rune(g)...)
+			i++
+		default:
+			out = append(out, c)
+			i++
+		}
+	}
+	return string(out)
+}
+
+// the alternatives of an alternation of the guarded (hence unfactored) tree, alternatives that are themselves nothing but
+// an alternation expanded (Go flattens those before it factors)
+func altList(re *syntax.Regexp, out *[]*syntax.Regexp) {
+	for _, s := range re.Sub {
+		inner := s
+		if inner.Op == syntax.OpConcat {
+			var rest []*syntax.Regexp
+			for _, q := range inner.Sub {
+				if q.Op != syntax.OpEmptyMatch {
+					rest = append(rest, q)
+				}
+			}
+			if len(rest) == 1 {
+				inner = rest[0]
+			}
+		}
+		if inner.Op == syntax.OpAlternate {
+			altList(inner, out)
+		} else {
+			*out = append(*out, s)
+		}
+	}
+}
+
+type leadAtom struct {
+	lit  bool
+	r    rune
+	fold bool
+	s    string
+}
+
+// an alternative as the sequence of its leading pieces, literal strings split into runes (the factoring peels common
+// leading pieces off one by one); empty matches (the guards) skipped
+func leadAtoms(re *syntax.Regexp, out *[]leadAtom) {
+	switch re.Op {
+	case syntax.OpEmptyMatch:
+	case syntax.OpConcat:
+		for _, s := range re.Sub {
+			leadAtoms(s, out)
+		}
+	case syntax.OpLiteral:
+		for _, r := range re.Rune {
+			*out = append(*out, leadAtom{lit: true, r: r, fold: re.Flags&syntax.FoldCase != 0})
+		}
+	case syntax.OpRepeat:
+		// a fixed repeat of a one-rune literal is the other kind of piece the factoring compares with Equal
+		if re.Min == re.Max && len(re.Sub) == 1 && re.Sub[0].Op == syntax.OpLiteral && len(re.Sub[0].Rune) == 1 {
+			*out = append(*out, leadAtom{lit: true, r: re.Sub[0].Rune[0], fold: re.Sub[0].Flags&syntax.FoldCase != 0,
+				s: "{" + strconv.Itoa(re.Min) + "}" + strconv.Itoa(int(re.Flags&syntax.NonGreedy))})
+			return
+		}
+		*out = append(*out, leadAtom{s: re.String()})
+	default:
+		*out = append(*out, leadAtom{s: re.String()})
+	}
+}
+
+// foldMix: some alternation of the (guarded) text has two alternatives that agree on their first k pieces and continue
+// with the SAME stored rune, one as a case-insensitive literal and one as a case-sensitive literal - the one situation in
+// which the factoring's flag-blind equality merges two pieces that are not equal
+func foldMix(re *syntax.Regexp) bool {
+	if re.Op == syntax.OpAlternate {
+		var alts []*syntax.Regexp
+		altList(re, &alts)
+		seqs := make([][]leadAtom, len(alts))
+		for i, a := range alts {
+			leadAtoms(a, &seqs[i])
+		}
+		for i := range seqs {
+			for j := i + 1; j < len(seqs); j++ {
+				a, b := seqs[i], seqs[j]
+				k := 0
+				for k < len(a) && k < len(b) && a[k] == b[k] {
+					k++
+				}
+				if k < len(a) && k < len(b) && a[k].lit && b[k].lit && a[k].r == b[k].r && a[k].s == b[k].s && a[k].fold != b[k].fold {
+					return true
+				}
+			}
+		}
+	}
+	for _, s := range re.Sub {
+		if foldMix(s) {
+			return true
+		}
+	}
+	return false
+}
+
+// guardBits: the verdicts of the guarded text and the class of the cause when they differ from `plain` (the verdicts of
+// the emitted text); "" when they are the same (or the text has no alternation / the guarded text does not compile)
+func guardBits(text string, subjects []string, plain string) (string, string) {
+	if !strings.Contains(text, "|") || len(subjects) == 0 {
+		return "", ""
+	}
+	gt := guardText(text)
+	gre, err := regexp.Compile(gt)
+	if err != nil {
+		return "", ""
+	}
+	var sb strings.Builder
+	for _, s := range subjects {
+		sb.WriteString(b01(gre.MatchString(s)))
+	}
+	if sb.String() == plain {
+		return "", ""
+	}
+	cls := "other"
+	if tree, err := syntax.Parse(gt, syntax.Perl); err == nil && foldMix(tree) {
+		cls = "foldmix"
+	}
+	return sb.String(), cls
+}
+
+// ";gd=<bits>;gc=<class>" when Go's regexp disagrees with itself on the emitted text, "" otherwise
+func guardOracle(text string, subjects []string, plain string) string {
+	bits, cls := guardBits(text, subjects, plain)
+	if bits == "" {
+		return ""
+	}
+	return ";gd=" + bits + ";gc=" + cls
 }
 
 // ---------------------------------------------------------------- running the implementation
@@ -1204,7 +1527,7 @@ func observe(src string, f bitfield.BitField8, subjects []string, xref string) s
 		if m.Len() == 0 {
 			m.WriteString("-")
 		}
-		return "text=" + th + ";go=ok;m=" + m.String() + ";xref=" + xref
+		return "text=" + th + ";go=ok;m=" + m.String() + ";xref=" + xref + guardOracle(text, subjects, m.String())
 	})
 }
 
